@@ -12,7 +12,9 @@ Theorem C06_opaque_roundtrip : forall (E : list nat -> list nat),
 Proof. exact opaque_roundtrip. Qed.
 Print Assumptions C06_opaque_roundtrip.
 
-(* Every ID token of every flow's response: signed by the current key; iss, aud,
+(* Every ID token of every flow's response (kid = the key Storage.SigningKey answered
+   inside CreateIDToken, kat = the one it answered inside CreateJWT; they differ when the
+   storage rotates in between): header, signature AND hash family from that one key kid; iss, aud,
    azp, sub, nonce, acr, amr, auth_time from the request; iat = now - skew,
    exp - iat = lifetime + 2 skew; at_hash / c_hash over the access token and code of
    this very response; every standard claim group (profile, email, phone, address)
@@ -21,10 +23,10 @@ Print Assumptions C06_opaque_roundtrip.
    the assertion flag is off (token exchange: the request's scopes); nothing else. *)
 Theorem C06_id_token_claims :
   forall (H : hkind -> string -> list nat) (E : list nat -> list nat)
-         issuer f cl k u rq state ids en now j ic,
-    let r := create_token_response H E issuer f cl k u rq state ids en now in
+         issuer f cl kat kid u rq state ids en now j ic,
+    let r := create_token_response H E issuer f cl kat kid u rq state ids en now in
     r_id r = Some (j, ic) ->
-    j = sign_desc k
+    j = sign_desc kid
     /\ i_iss ic = issuer
     /\ string_in (cl_id cl) (i_aud ic) = true
     /\ i_azp ic = cl_id cl
@@ -37,8 +39,8 @@ Theorem C06_id_token_claims :
     /\ i_iat ic = (sec now - cl_skew cl)%Z
     /\ (i_exp ic - i_iat ic = cl_id_life cl + 2 * cl_skew cl)%Z
     /\ i_at_hash ic = (if access_wire (r_access r) =s "" then ""
-                       else claim_hash H (sk_alg k) (access_wire (r_access r)))
-    /\ i_c_hash ic = (if flow_code f =s "" then "" else claim_hash H (sk_alg k) (flow_code f))
+                       else claim_hash H (sk_alg kid) (access_wire (r_access r)))
+    /\ i_c_hash ic = (if flow_code f =s "" then "" else claim_hash H (sk_alg kid) (flow_code f))
     /\ (let g := granted f cl rq (access_wire (r_access r)) in
         (i_name ic <> "" \/ i_username ic <> "" -> string_in "profile" g = true)
         /\ (i_email ic <> "" \/ i_email_verified ic = true -> string_in "email" g = true)
@@ -50,21 +52,24 @@ Print Assumptions C06_id_token_claims.
 
 (* ... and the relying party's check sequence (C01 model: rp.VerifyIDToken and
    rp.VerifyTokens incl. at_hash) accepts it against the published key set, for
-   any signature oracle that accepts the provider key's own signatures, whenever
-   the configuration is consistent: algorithm allowed, offset >= -skew,
+   any signature oracle that accepts the provider key's own signatures, for any
+   published key set in which exactly one key has the signing key's kid, a signature
+   use ("sig" or none) and its type and is its public key (any order, any further
+   keys), whenever the configuration is consistent: algorithm allowed, offset >= -skew,
    offset + 2 s <= lifetime + skew, expected nonce/acr, verified within 1 s. *)
 Theorem C06_id_token_verifies :
   forall (verify : jwk -> sigentry -> string -> bool) (H : hkind -> string -> list nat)
-         (E : list nat -> list nat) issuer f cl k extra u rq state ids en now j ic v vnow,
-    let r := create_token_response H E issuer f cl k u rq state ids en now in
+         (E : list nat -> list nat) issuer f cl kat kid keys u rq state ids en now j ic v vnow,
+    let r := create_token_response H E issuer f cl kat kid u rq state ids en now in
     r_id r = Some (j, ic) ->
-    sign_complete verify k -> key_ok k = true -> hash_of_alg (sk_alg k) <> None ->
+    sign_complete verify kid -> key_ok kid = true -> published_once kid keys = true ->
+    hash_of_alg (sk_alg kid) <> None ->
     rq_sub rq <> "" -> cl_id cl <> "" ->
-    rp_consistent issuer f cl k rq v now vnow ->
-    let ks := KSOpenID (Some (served_keys k extra)) in
-    verify_id_token verify v ks (sym_token j) (MidOk "P" (to_c01 ic)) vnow = Accept (to_c01 ic) (sk_alg k)
+    rp_consistent issuer f cl kid rq v now vnow ->
+    let ks := KSOpenID (Some (served_keys keys)) in
+    verify_id_token verify v ks (sym_token j) (MidOk "P" (to_c01 ic)) vnow = Accept (to_c01 ic) (sk_alg kid)
     /\ verify_tokens verify H v ks (sym_token j) (MidOk "P" (to_c01 ic)) (access_wire (r_access r)) vnow
-       = Accept (to_c01 ic) (sk_alg k).
+       = Accept (to_c01 ic) (sk_alg kid).
 Proof. exact id_token_verifies. Qed.
 Print Assumptions C06_id_token_verifies.
 
@@ -73,11 +78,11 @@ Print Assumptions C06_id_token_verifies.
    for granted custom scopes; op.VerifyAccessToken (C02 model) accepts them. *)
 Theorem C06_access_jwt_verifies :
   forall (verify : jwk -> sigentry -> string -> bool) (H : hkind -> string -> list nat)
-         (E : list nat -> list nat) issuer f cl k extra u rq state ids en now w j a algs vnow,
-    let r := create_token_response H E issuer f cl k u rq state ids en now in
+         (E : list nat -> list nat) issuer f cl kat kid keys u rq state ids en now w j a algs vnow,
+    let r := create_token_response H E issuer f cl kat kid u rq state ids en now in
     r_access r = AJwt w j a ->
     let cl' := eff_client f rq cl in
-    j = sign_desc k
+    j = sign_desc kat
     /\ a_iss a = issuer /\ a_sub a = rq_sub rq
     /\ a_aud a = (match rq_aud rq with [] => [cl_id cl'] | l => l end)
     /\ a_client_id a = cl_id cl'
@@ -86,12 +91,12 @@ Theorem C06_access_jwt_verifies :
     /\ a_iat a = (sec now - cl_skew cl')%Z /\ a_nbf a = a_iat a
     /\ (forall e, In e (a_extra a) ->
           string_in ("custom:" ++ fst e)%string (restrict (cl_drop_at cl') (rq_scopes rq)) = true)
-    /\ (sign_complete verify k -> key_ok k = true ->
-        string_in (sk_alg k) (effective_algs algs) = true ->
+    /\ (sign_complete verify kat -> key_ok kat = true -> published_once kat keys = true ->
+        string_in (sk_alg kat) (effective_algs algs) = true ->
         (0 <= vnow)%Z -> (vnow < st_exp now (cl_at_life cl') * ns)%Z ->
         verify_access_token verify (mkVerifier issuer "" 0 0 0 None None algs)
-                            (KSOpenID (Some (served_keys k extra)))
-                            (sym_token j) (MidOk "P" (at_to_c01 a)) vnow = Accept (at_to_c01 a) (sk_alg k)).
+                            (KSOpenID (Some (served_keys keys)))
+                            (sym_token j) (MidOk "P" (at_to_c01 a)) vnow = Accept (at_to_c01 a) (sk_alg kat)).
 Proof. exact access_jwt_verifies. Qed.
 Print Assumptions C06_access_jwt_verifies.
 
@@ -99,8 +104,8 @@ Print Assumptions C06_access_jwt_verifies.
    (rounded down); refresh token exactly when the flow needs one *)
 Theorem C06_response_fields :
   forall (H : hkind -> string -> list nat) (E : list nat -> list nat)
-         issuer f cl k u rq state ids en now,
-    let r := create_token_response H E issuer f cl k u rq state ids en now in
+         issuer f cl kat kid u rq state ids en now,
+    let r := create_token_response H E issuer f cl kat kid u rq state ids en now in
     let cl' := eff_client f rq cl in
     r_scope r = rq_scopes rq
     /\ (has_access f = true ->
@@ -126,3 +131,13 @@ Theorem C06_spec_model_nonvacuous :
   /\ r_refresh (model_response ex_case) = "rt2".
 Proof. exact spec_model_nonvacuous. Qed.
 Print Assumptions C06_spec_model_nonvacuous.
+
+(* a rotation between the two SigningKey calls of one response *)
+Theorem C06_spec_model_rotation_nonvacuous :
+  wf ex_case_rot = true /\ consistent ex_case_rot = true /\ at_consistent ex_case_rot = true
+  /\ (exists w a, r_access (model_response ex_case_rot) = AJwt w (mkJ "ES384" "sig-1" "JWT" (Some 4%N)) a)
+  /\ (exists ic, r_id (model_response ex_case_rot) = Some (mkJ "RS256" "sig-1-next" "JWT" (Some 0%N), ic)
+                 /\ i_at_hash ic = claim_hash (lookup_hash (cs_hashes ex_case_rot)) "RS256" "h.p.s"
+                 /\ i_addr ic = "").
+Proof. exact spec_model_rotation_nonvacuous. Qed.
+Print Assumptions C06_spec_model_rotation_nonvacuous.
